@@ -218,6 +218,12 @@ func C13(r *core.Run) {
 			}
 			one(lines)
 		})
+		// a payload line longer than any line buffer
+		for _, ln := range []int{65535, 65536, 70000, 1 << 20} {
+			long := "    data: " + strings.Repeat("a", ln)
+			one([]string{"  - test_id: 4", long, "  - test_id: 9", "    desc: foo"})
+			one([]string{long, "  - test_title: 1-7"})
+		}
 		// files with 9..12 tests: two-digit numbers
 		for nt := 9; nt <= 12; nt++ {
 			for shape := 0; shape < 3; shape++ {
